@@ -355,6 +355,52 @@ func init() {
 					continue
 				}
 				facts := canonFacts(r.Block())
+				// a dominating `g(args...) == nil` for a validity function g of the package imports what g establishes on
+				// every path on which it answers nil (its parameters rendered as the caller's arguments)
+				for _, ft := range condFacts(r.Block()) {
+					b, ok := ft.Cond.(*ssa.BinOp)
+					if !ok || !((b.Op == token.EQL && ft.Truth) || (b.Op == token.NEQ && !ft.Truth)) {
+						continue
+					}
+					var other ssa.Value
+					if isNilConst(b.Y) {
+						other = b.X
+					} else if isNilConst(b.X) {
+						other = b.Y
+					}
+					call, isCall := other.(*ssa.Call)
+					if !isCall {
+						continue
+					}
+					g := call.Call.StaticCallee()
+					if g == nil || g == chk || g.Blocks == nil || relPkg(fnPkgPath(g)) != "core/base" || len(g.Params) != len(call.Call.Args) {
+						continue
+					}
+					env := map[ssa.Value]string{}
+					for k, p := range g.Params {
+						env[p] = accessPath(call.Call.Args[k])
+					}
+					var common map[string]bool
+					for _, gr := range returnsOf(g) {
+						if len(gr.Results) == 0 || !isNilConst(gr.Results[0]) {
+							continue
+						}
+						var fs map[string]bool
+						withPathEnv(env, func() { fs = canonFacts(gr.Block()) })
+						if common == nil {
+							common = fs
+						} else {
+							for k := range common {
+								if !fs[k] {
+									delete(common, k)
+								}
+							}
+						}
+					}
+					for k := range common {
+						facts[k] = true
+					}
+				}
 				// canonical sorting puts "0" first; also accept the commuted rendering
 				var missing []string
 				for _, w := range want {
